@@ -143,6 +143,21 @@ def variants(src):
     return out
 
 
+# programs of several modules: (files, expected exit). The variants respell main.oal only.
+MODULE_MATRIX = {
+    "imported-generic-function-next-to-unrelated-declarations": (
+        {"main.oal": 'use "lib.oal";\nlet a = id num;\nlet b = {};\nlet c = [str];\nres / on get -> <{ \'a a, \'b b, \'c c }>;\n', "lib.oal": "let id x = x;\n"}, 0),
+    "imported-generic-functions-through-a-qualifier": (
+        {"main.oal": 'use "lib.oal" as l;\nlet a = l.id num;\nlet b = l.fst {} str;\nlet c = [a];\nres / on get -> <{ \'a a, \'b b, \'c c }>;\n',
+         "lib.oal": "let id x = x;\nlet fst x y = x;\n"}, 0),
+    "two-libraries-with-generic-functions": (
+        {"main.oal": 'use "p.oal" as p;\nuse "q.oal" as q;\nlet a = p.id {};\nlet b = q.id num;\nlet c = [b];\nres / on get -> <{ \'a a, \'b b, \'c c }>;\n',
+         "p.oal": "let id x = x;\n", "q.oal": "let pad = {};\nlet id y = y;\n"}, 0),
+    "imported-function-misused": (
+        {"main.oal": 'use "lib.oal";\nlet a = both num {};\nres / on get -> <a>;\n', "lib.oal": "let both x y = x & y;\n"}, 1),
+}
+
+
 def run_matrix(names=None, tag="matrix"):
     cli = build_cli()
     rdir = new_replay_dir("C07", tag)
@@ -158,6 +173,18 @@ def run_matrix(names=None, tag="matrix"):
         detail[n]["variants"] = {}
         for vn, vsrc in vs.items():
             r2 = run_cli(cli, {"main.oal": vsrc}, workdir=os.path.join(rdir, n + "." + vn.replace("+", "-")), timeout=30)
+            detail[n]["variants"][vn] = r2["rc"]
+            if r2["rc"] != res["rc"]:
+                mism.append("%s: verdict changes under '%s' (exit %s -> %s)" % (n, vn, res["rc"], r2["rc"]))
+    for n, (files, want) in MODULE_MATRIX.items():
+        if names and n not in names:
+            continue
+        res = run_cli(cli, files, workdir=os.path.join(rdir, n), timeout=30)
+        detail[n] = {"rc": res["rc"], "want": want, "tail": res["out"][-120:], "variants": {}}
+        if res["rc"] != want:
+            mism.append("%s: exit %s, expected %s" % (n, res["rc"], want))
+        for vn, vsrc in variants(files["main.oal"]).items():
+            r2 = run_cli(cli, dict(files, **{"main.oal": vsrc}), workdir=os.path.join(rdir, n + "." + vn.replace("+", "-")), timeout=30)
             detail[n]["variants"][vn] = r2["rc"]
             if r2["rc"] != res["rc"]:
                 mism.append("%s: verdict changes under '%s' (exit %s -> %s)" % (n, vn, res["rc"], r2["rc"]))
@@ -202,6 +229,9 @@ def check():
 
     # ---------------------------------------------------------------- C. union / reduce steps
     union_steps(o, L, M, bad)
+
+    # ---------------------------------------------------------------- D. type variables are fresh, per module
+    fresh_variable_lemmas(o, L, S, M, E, bad)
 
     # ---------------------------------------------------------------- replay
     o.samples = [{"query": q["name"], "verdict": q["verdict"]} for q in o.queries if q.get("engine") != "mirsym/z3" or "witness" not in q["name"]][:14]
@@ -396,6 +426,81 @@ def occurs_lemma(o, S, M, E, children, bad):
     mirlib.check_translator(o, ex, "occurs")
 
     return True
+
+
+def fresh_variable_lemmas(o, L, S, M, E, bad):
+    """A type variable is (module locator, number): tag() numbers a module's variables from a sequence created for that
+    module's own locator, the sequence hands out each number once, and two variables are the same only if both
+    components agree - so variables of different modules never collide, whatever the numbers."""
+    def structural(name, ok):
+        o.query(name, "mirsym/structural", "unsat" if ok else "violated", 0)
+        if not ok:
+            bad.append(("fresh", name, None))
+
+    def on_sat(name, model):
+        bad.append(("fresh", name, None))
+    try:
+        f_eq = M.sel("tag", "eq", arg0=r"&TagId")
+        f_new = M.sel("tag", "new", arg0=r"Locator", ret=r"Seq")
+        f_next = M.sel("tag", "next", arg0=r"&mut Seq")
+        f_tag = [f for f in M.funcs if f.kind == "fn" and f.name.split("::")[-1] == "tag" and len(f.args) == 2 and "ModuleSet" in f.args[0][1] and "Locator" in f.args[1][1]]
+        if len(f_tag) != 1:
+            raise KeyError("inference::tag: %d candidates" % len(f_tag))
+        f_tag = f_tag[0]
+    except Exception as ex:
+        o.inconc("MIR: %s" % str(ex)[-200:])
+        return
+    o.functions += [mirlib.func_ref(f, "oal-compiler") for f in (f_eq, f_new, f_next, f_tag)]
+    # TagId == TagId
+    ex = mirlib.executor([M])
+    a, b = ("deref", ("sym", "a")), ("deref", ("sym", "b"))
+    n_true = 0
+    for p in ex.run(f_eq, arg_names=["a", "b"]):
+        if p.kind != "return" or p.ret == ms.FALSE:
+            continue
+        n_true += 1
+        cond = S.pc(p.pc) + ([] if p.ret == ms.TRUE else [S.b(p.ret)])
+        L.expect_unsat("TagId::eq: equal only if the module locators and the numbers are both equal",
+                       cond + [z3.Or(S.v(ms.proj(a, ("f", 0), E)) != S.v(ms.proj(b, ("f", 0), E)), S.i(ms.proj(a, ("f", 1), E)) != S.i(ms.proj(b, ("f", 1), E)))], on_sat)
+    mirlib.check_translator(o, ex, "TagId::eq")
+    if n_true == 0:
+        o.inconc("TagId::eq: no path can answer true")
+    # Seq::new / Seq::next
+    ex = mirlib.executor([M])
+    rets = [p for p in ex.run(f_new, arg_names=["loc"]) if p.kind == "return"]
+    okn = len(rets) == 1 and any(t == ("sym", "loc") for t in ms.subterms(rets[0].ret)) and any(t == ms.C("int", 0) for t in ms.subterms(rets[0].ret))
+    structural("Seq::new: the sequence starts at 0 and carries the locator it was given", okn)
+    ex = mirlib.executor([M])
+    rets = [p for p in ex.run(f_next, arg_names=["self"]) if p.kind == "return"]
+    okx = len(rets) == 1
+    if okx:
+        p = rets[0]
+        st = [e for e in p.events if e[0] == "store" and e[1] == ("sym", "self")]
+        direct = [t for t in (p.ret[2] if p.ret[0] == "aggr" else ()) if t[0] == "fld" and t[1][0] == "fld" and t[1][1] == ("deref", ("sym", "self"))]
+        old_n = direct[0] if len(direct) == 1 else None
+        clones = [e for e in p.calls() if e[1].endswith("Clone::clone")]
+        okx = len(st) == 1 and old_n is not None and len(clones) == 1 and clones[0][3] in ms.subterms(p.ret)
+        if okx:
+            okx = L.expect_unsat("Seq::next: the counter moves on by exactly one (the next variable gets another number)",
+                                 S.pc(p.pc) + [S.i(st[0][3]) != S.i(old_n) + 1], on_sat)
+            lo = _strip_addr(clones[0][2][0])
+            okx = okx and lo[0] == "fld" and lo[1][0] == "fld" and lo[1][1] == ("deref", ("sym", "self")) and lo != old_n
+    structural("Seq::next: answers (the sequence's own locator, the current number) and then increments the number", okx)
+    # tag(): one sequence, made for the module's own locator
+    ex = mirlib.executor([M], max_paths=400)
+    news = set()
+    for p in ex.run(f_tag, arg_names=["mods", "loc"]):
+        for e in p.calls():
+            if e[1] == "Seq::new":
+                news.add(e[2][0])
+    okt = len(news) == 1 and all(t[0] == "app" and t[1].endswith("Clone::clone") and _strip_addr(t[2][0]) in (("sym", "loc"), ("deref", ("sym", "loc"))) for t in news)
+    structural("tag(): the variables of a module are numbered by one sequence created with that module's own locator", okt)
+
+
+def _strip_addr(t):
+    while t[0] == "addr":
+        t = t[1]
+    return t
 
 
 def closure_unifies_bindings(M, clo, lb, rb):
